@@ -74,10 +74,10 @@ Hash(x) == (x.n * 7 + (IF x.ds = "ab" THEN 1 ELSE IF x.ds = "absent" THEN 2 ELSE
             + FoldSet(LAMBDA u, acc : acc + (IF x.p1[u] = "-" THEN 0 ELSE IF x.p1[u] = "f" THEN u + 1 ELSE 5 * (u + 1)), 0, 0..(Period - 1)) * 17
             + (IF x.p2[1] = "f" THEN 1 ELSE 2) * 19 + (IF x.p2[2] = "f" THEN 1 ELSE 2) * 23 + (IF x.p3[1] = "f" THEN 3 ELSE 4) * 29
             + (IF x.p2[4] = "f" THEN 1 ELSE IF x.p2[4] = "s" THEN 2 ELSE 3) * 31 + (IF x.p3[3] = "f" THEN 1 ELSE 2) * 37)
-H(x) == Hash(x) \div Mod
-AggOf(x) == Aggs[(H(x) % Len(Aggs)) + 1]
-GrpOf(x) == Grps[((H(x) \div 3) % Len(Grps)) + 1]
-ParOf(x) == Params[((H(x) \div 5) % Len(Params)) + 1]
+HS(x) == Hash(x) + (Seed % 997) * 131
+AggOf(x) == Aggs[Pick(HS(x), 1, Len(Aggs)) + 1]
+GrpOf(x) == Grps[Pick(HS(x), 2, Len(Grps)) + 1]
+ParOf(x) == Params[Pick(HS(x), 3, Len(Params)) + 1]
 NeedsParam(a) == a \in {"topk", "bottomk", "quantile"}
 \* the selector is the whole dataset except the parameter series
 SelAll(x) == IF x.ds = "twometrics" THEN <<Re("__name__", "m|n", <<"m", "n">>)>> ELSE <<Metric("m")>>
@@ -105,5 +105,5 @@ AggLaw ==
        /\ SumVals([y \in 1..Len(out.vec) |-> out.vec[y].val]) = I(Len(in.vec))
        /\ \A y \in 1..Len(out.vec) : \A p \in out.vec[y].ls : p[1] # "__name__" \/ (gp.by /\ "__name__" \in ToSet(gp.grp))
 
-EmitAgg == IF Hash(g) % Mod = Seed % Mod THEN Emit(ScnOf(g)) ELSE TRUE
+EmitAgg == IF Pick(Hash(g), 0, Mod) = Seed % Mod THEN Emit(ScnOf(g)) ELSE TRUE
 =============================================================================
